@@ -252,6 +252,12 @@ func cmdReport(args []string) {
 				recs[w].Add(evBody(ev), "report.NewBase")
 			}
 		}
+		// the same vector (nothing optional written) as a temporal and as an environmental report
+		for k, lvl := range []byte{'T', 'E'} {
+			if ev := buildRepEvent(lvl, []string{"en", "ja"}[(i+k)%2], s); ev != nil {
+				recs[w].Add(evBody(ev), "report.New* on a base-only vector")
+			}
+		}
 	})
 	parallelFor(*n, workers, func(w, i int) {
 		rng := newRand(8000 + i)
